@@ -49,9 +49,19 @@ class Square:
     def area(self):
         return self.s * self.s
 ''',
-    "colors.py": '''class Color:
+    "typing_defs.py": '''class Tag:
+    """A user class in a user module whose name merely starts with `typing`."""
+
+    def __init__(self, label="t"):
+        self.label = label
+''',
+    "colors.py": '''from typing_defs import Tag as _Tag
+
+
+class Color:
     def __init__(self, name="red"):
         self.name = name
+        self.tag = _Tag(name)
 
 
 RED = Color("red")
@@ -77,6 +87,9 @@ IMPORT_STYLES = [
     {"name": "try-except-alternative-import", "lines": ["try:", "    from fastshapes import Circle, Square", "except ImportError:", "    from shapes import Circle, Square",
                                                        "from geo.util import Point", "import colors"],
      "Circle": "Circle", "Square": "Square", "Point": "Point", "Color": "colors.Color"},
+    # only part of what the stub needs from `shapes` is imported: the new name merges into a statement that stays
+    {"name": "from-import-partial", "lines": ["from shapes import Square, unit", "from geo.util import Point", "from colors import Color"],
+     "Circle": "type(unit())", "Square": "Square", "Point": "Point", "Color": "Color"},
     {"name": "mixed", "lines": ["import shapes", "from shapes import Square", "from geo.util import Point", "from colors import *"],
      "Circle": "shapes.Circle", "Square": "Square", "Point": "Point", "Color": "Color"},
 ]
@@ -213,6 +226,23 @@ def build(rng, name, opts=None):
             "",
         ]
         feats.append("posonly-star")
+    if chance(0.35, "typing-named-module"):
+        L += [
+            "def tag_of(t):",
+            "    return t.label",
+            "",
+            "",
+        ]
+        feats.append("typing-named-module")
+    if chance(0.4, "noncanonical-partial-annotations"):
+        # existing annotations spelled differently from how a stub renders them (implicit Optional, quoted) beside unannotated positions
+        L += [
+            "def resize(shape, factor: float = None, tag: 'str' = 'a'):",
+            "    return [shape.area() * (factor or 1.0), tag]",
+            "",
+            "",
+        ]
+        feats.append("noncanonical-partial-annotations")
     if chance(0.5, "alias-annotations"):
         if not any(ln == "import typing" for ln in L):
             idx = L.index("import functools  # needed by the decorator below")
@@ -278,6 +308,10 @@ def build(rng, name, opts=None):
         L += ["    out.append(settings({'a': 1, 'b': 2}))", "    out.append(settings({'a': 1}))"]
     if "def clamp(" in src:
         L += ["    out.append(clamp(3, lo=5))", "    out.append(join('a', 'b', sep='-'))"]
+    if "def tag_of(" in src:
+        L += [f"    out.append(tag_of({Col}('blue').tag))"]
+    if "def resize(" in src:
+        L += ["    out.append(resize(c))", "    out.append(resize(c, 2.0, tag='b'))"]
     if "def scale_all(" in src:
         L += ["    out.append(scale_all([1, 2], 3))", "    out.append(scale_all([4]))"]
     L += ["    cv = Canvas.of(c).add(make_circle(3))", "    out.append(cv.count)", "    out.append(Canvas.blank().count)", "    out.append(Canvas().width)"]
